@@ -78,6 +78,14 @@ def run_property(prop, tier, seed, jobs=None, only=None, verbose=False):
             bad_inv = [o["name"] for o in r["obls"] if "/loop-invariant:" in o["name"] and o["status"] != "proved"]
             if bad_inv:
                 r = dict(r, error=f"unsupported: sidecar loop invariant not established for the current loop ({bad_inv[0].split('/', 1)[1]})", obls=[])
+            else:
+                # symbolic-arity obligations are discharged with hand-instantiated quantified
+                # facts: an undischarged one is "no proof found", not a refutation (a model of
+                # the ground instances need not be a model of the facts).  Only the proofs that
+                # go through are used; otherwise the bounded-arity families decide the method.
+                open_ = [o["name"] for o in r["obls"] if o["status"] != "proved"]
+                if open_ and not os.environ.get("PYVC_G_STRICT"):
+                    r = dict(r, error=f"unsupported: no unbounded-arity proof found ({open_[0].split('/', 1)[1]} not discharged)", obls=[])
         if r["error"] and r.get("optional") and r["error"].startswith("unsupported"):
             notes.append(f"NOTE {prop} {r['family']}: unbounded-arity proof not applicable to the current code shape "
                          f"({r['error'][:120]}); the bounded-arity families decide this method")
